@@ -351,6 +351,62 @@ example : Inv (callHandler (fun a => hrun a [.buf (.insertText ['x', 'y'] true t
               { exApp with buf := exBuf }).1.buf :=
   call_handler_inv _ (by decide) true { exApp with buf := exBuf } exBuf_inv (by decide)
 
+/-- a handler op whose by-passing writes (if any) store positions inside the text of the state it
+    is applied to -/
+def HOp.safeAt (a : App) : HOp → Prop
+  | .raw r => r.inRange a.buf
+  | _ => True
+
+/-- every op of the program is safe at the state in which it is executed -/
+def SafeProg : App → List HOp → Prop
+  | _, [] => True
+  | a, op :: ops => op.safeAt a ∧ ((hstep a op).2 = .ok → SafeProg (hstep a op).1 ops)
+
+theorem hstep_inv_safe (a : App) (op : HOp) (hs : op.safeAt a) (h : Inv a.buf)
+    (ho : (hstep a op).2 ≠ .indexError) : Inv (hstep a op).1.buf := by
+  cases op with
+  | raw r => exact raw_inv a.buf r h hs
+  | buf o => exact hstep_inv a (.buf o) rfl h ho
+  | setMode m => exact h
+  | setOp p g => exact h
+  | setDigraph w s => exact h
+  | setTempNav t => exact h
+  | setArg g => exact h
+  | viReset => exact h
+
+/-- **Handlers that also use the pinned by-passing writes** keep the invariant as long as every such
+    write stores positions inside the text of that moment (the obligation the search checks on the
+    real handlers). -/
+theorem handler_inv_with_safe_bypass : ∀ (prog : List HOp) (a : App), SafeProg a prog → Inv a.buf →
+    (hrun a prog).2 ≠ .indexError → Inv (hrun a prog).1.buf
+  | [], a, _, h, _ => h
+  | op :: ops, a, hsafe, h, ho => by
+    unfold hrun at *
+    have hs := hstep_inv_safe a op hsafe.1 h
+    have hrest := hsafe.2
+    revert hs ho hrest
+    generalize hstep a op = r
+    obtain ⟨a1, o⟩ := r
+    intro ho hs hrest
+    cases o <;> simp only [] at ho hrest ⊢
+    · exact handler_inv_with_safe_bypass ops a1 (hrest trivial) (hs (by simp)) ho
+    · exact hs (by simp)
+    · exact hs (by simp)
+    · exact absurd rfl ho
+
+-- block insert: set two cursors inside "ab\ncd", insert at both (text change clears them), set the shifted ones
+example : Inv (hrun { exApp with buf := exBuf }
+    [.raw (.multi [0, 3]), .buf (.setText "xab\nxcd".toList), .raw (.multi [1, 5]), .buf (.moveCursor 1)]).1.buf :=
+  handler_inv_with_safe_bypass _ _ (by
+    refine ⟨?_, fun _ => ⟨trivial, fun _ => ⟨?_, fun _ => ⟨trivial, fun _ => trivial⟩⟩⟩⟩
+    · intro p hp
+      have : p = 0 ∨ p = 3 := by simpa using hp
+      rcases this with rfl | rfl <;> decide
+    · intro p hp
+      have : p = 1 ∨ p = 5 := by simpa using hp
+      rcases this with rfl | rfl <;> decide) exBuf_inv (by decide)
+
+
 /-! ### (c) the Vi state -/
 
 /-- **(c) assigning `InputMode.NAVIGATION` clears the pending operator and the digraph state**
